@@ -160,8 +160,8 @@ def print_assumptions(vfile, timeout=600):
             m = re.match(r'^([A-Za-z_][\w.\']*)\s*(:|$)', line)
             if m:
                 cur.append(m.group(1))
-    names = [n for n, _ in theorems_in(vfile)]
-    res = {n: (blocks[i] if i < len(blocks) else None) for i, n in enumerate(names)}
+    printed = re.findall(r'^\s*Print Assumptions (\w+)\.', open(os.path.join(COQ, vfile)).read(), re.M)
+    res = {n: (blocks[i] if i < len(blocks) else None) for i, n in enumerate(printed)}
     return res, out
 
 
@@ -381,9 +381,10 @@ def proof_stage(chk, vfile, extra_targets=(), timeout=1500):
     if res['ok']:
         ass, out = print_assumptions(vfile)
         for name, _ in thms:
-            chk.obligation('theorem ' + name, True, 'axioms: ' + (', '.join(ass.get(name, [])) if ass and ass.get(name) else 'none (closed under the global context)'))
+            ax = ass.get(name) if ass else None
+            chk.obligation('theorem ' + name, True, 'axioms: ' + ('(not printed)' if ax is None else (', '.join(ax) if ax else 'none (closed under the global context)')))
         if ass:
-            allax = sorted({a for v in ass.values() for a in v})
+            allax = sorted({a for v in ass.values() if v for a in v})
             chk.cov['axioms'] = allax
             for a in allax:
                 chk.trusted.append('axiom (standard library): ' + a)
